@@ -4,3 +4,4 @@ cd /verif || exit 1
 export PYTHONWARNINGS=ignore PYTHONHASHSEED=0 PYTHONPATH=/verif
 /venv/bin/python -c "import vf; h=vf.treeguard(); print('hio from', h.__file__)" || exit 1
 /venv/bin/python -m vf.selftest || exit 1
+/venv/bin/python -m vf.env.fakenet_conf || exit 1
